@@ -163,6 +163,16 @@ func (p *Proxy) Close() {
 	}
 }
 
+// Forget drops what the proxy has recorded so far (transcripts, delivered messages, raw bytes) - for set-ups that
+// carry many thousands of frames and never look at the record.
+func (p *Proxy) Forget() {
+	p.mu.Lock()
+	defer p.mu.Unlock()
+	p.Transcript = map[string][][]byte{}
+	p.Delivered = map[string][][]byte{}
+	p.RawBytes = map[string][]byte{}
+}
+
 // Idle returns how long nothing has crossed the proxy.
 func (p *Proxy) Idle() time.Duration {
 	p.mu.Lock()
